@@ -39,12 +39,13 @@ def shards(tier):
 def message_key(msg):
     """Bucket of a javac message: its stable head with names and types removed."""
     m = msg.strip()
+    cap = '+captured-type' if 'CAP#' in m else ''
     m = re.sub(r'CAP#\d+', 'CAP', m)
     head = m.split(':')[0]
     head = re.sub(r'\b[A-Z][A-Za-z0-9_]*(<[^:]*>)?', 'T', head)
     head = re.sub(r'\b[a-z][a-z0-9_]*\b', lambda x: x.group(0) if x.group(0) in KEYWORDS else 'x', head)
     head = re.sub(r'(x )+', 'x ', head)
-    return re.sub(r'\s+', '-', head.strip())[:60]
+    return re.sub(r'\s+', '-', head.strip())[:60] + cap
 
 
 KEYWORDS = set('incompatible types cannot find symbol be converted to applied given method constructor in class not is '
@@ -191,6 +192,11 @@ def judge_programs(progs, col, n_batches, seed):
                 col.feature('batch_truncated_at_maxerrs(not judged)')
                 continue
             for p in batch:
+                if not p['expect_ok']:
+                    # the property speaks about valid programs; javac reports the errors of an ill-typed neighbour phase by phase
+                    # (a flow error of one file is not reported while another file has an attribution error)
+                    col.feature('batch_members_overwritten(not judged)')
+                    continue
                 col.add_extra('disagreements_checked', 1)
                 inb = bool(errs.get(p['path']))
                 if inb != verdict[p['path']]:
